@@ -542,6 +542,10 @@ def check_magnitude(ctx, rule: str, modules: List[str]) -> None:
                 elif isinstance(r, ast.Attribute) and r.attr in ("tolerance", "bounds_tol", "feasibility_tol") and False:
                     cut, val = r, l
                 if cut is None:
+                    # a shifted threshold  x > y - cutoff  /  x < y + cutoff  is the one-sided half of |x - y| < cutoff
+                    for side, other in ((l, r), (r, l)):
+                        if isinstance(side, ast.BinOp) and isinstance(side.op, (ast.Add, ast.Sub)) and any(isinstance(x, ast.Name) and x.id in cut_names for x in (side.left, side.right)):
+                            ctx.bad(rule, fn, n, f"`{norm(n)}` tests closeness to `{norm(side.left if not (isinstance(side.left, ast.Name) and side.left.id in cut_names) else side.right)}` on one side only: a value on the other side of it passes however far away it is (use abs(a - b) < cutoff)")
                     continue
                 if isinstance(val, (ast.Constant,)) or (isinstance(val, ast.Name) and val.id in cut_names):
                     continue
